@@ -2,6 +2,7 @@ import XvcPipeData.SchemaLemmas
 import XvcPipeData.SchemaReach
 import XvcPipeData.ReaderLemmas
 import XvcPipeData.ExportFile
+import XvcPipeData.Gen.ExportOrder
 /-!
   # C14 — Pipeline export and import are inverse
 
@@ -314,6 +315,89 @@ theorem C14_reachable_invariants (cs : List (Cmd D O)) :
       | importSchema sch n ow => exact C14_import_preserves st sch n ow hf hu
     exact ih (Cmd.run st c) step.1 step.2
 
+/-! ## the order of the exported dependency / output lists is a function of the SET of values
+
+  `Gen.dependenciesOrder`, `Gen.outputsOrder`, `Gen.stepsOrder` are regenerated from `export.rs` on
+  every run (`Gen/ExportOrder.lean`).  `deps[e].values()` arrives in the iteration order of a
+  `HashMap` whose hasher is seeded per process: two exports of one pipeline, and the export of an
+  imported copy (other entities), see two *permutations* of the same collection. -/
+
+/-- **The exported dependency list is determined by the collection of dependencies, not by the order
+    in which the `HStore` yields them**: for any two permutations of the stored dependencies the list
+    `cmd_export` writes is the same.  (A sort by the derived total order is permutation invariant;
+    with `.sorted_by_cached_key(|d| d.to_string())` this statement is false:
+    `C14_sort_by_display_counterexample`.) -/
+theorem C14_export_dependency_order_canonical {κ : Type} [TotalOrd κ] (display : D → κ) {l l' : List D}
+    (hp : l.Perm l') :
+    orderVals Gen.dependenciesOrder display l = orderVals Gen.dependenciesOrder display l' := by
+  show orderVals FieldOrder.derivedOrd display l = orderVals FieldOrder.derivedOrd display l'
+  exact sortVals_perm hp
+
+/-- The same for the outputs of a step. -/
+theorem C14_export_output_order_canonical {κ : Type} [TotalOrd κ] (display : O → κ) {l l' : List O}
+    (hp : l.Perm l') :
+    orderVals Gen.outputsOrder display l = orderVals Gen.outputsOrder display l' := by
+  show orderVals FieldOrder.derivedOrd display l = orderVals FieldOrder.derivedOrd display l'
+  exact sortVals_perm hp
+
+/-- The model (`stepSchema?`, `exportSteps` in `Schema.lean`) orders the three collections the way the
+    source does: the table extracted from `export.rs` says `derivedOrd` for steps, dependencies and
+    outputs, and the lists of every exported step are `orderVals` of that table.  This is the
+    obligation that ties `C14_export_deterministic` / `C14_roundtrip` to the orderings in the code. -/
+theorem C14_export_order_as_modelled {κ : Type} [TotalOrd κ] (dd : D → κ) (od : O → κ) (sh : Shuf)
+    (st : Repo D O) (es : Ent × String) (s : StepSchema D O) (h : stepSchema? sh st es = some s) :
+    s.dependencies = orderVals Gen.dependenciesOrder dd ((childrenOf sh st.gen st.depStep st.deps es.1).map (·.2)) ∧
+    s.outputs = orderVals Gen.outputsOrder od ((childrenOf sh st.gen st.outStep st.outs es.1).map (·.2)) ∧
+    Gen.stepsOrder = FieldOrder.derivedOrd := by
+  unfold stepSchema? at h
+  cases hc : st.commands es.1 with
+  | none => simp [hc] at h
+  | some c =>
+    simp only [hc, Option.some.injEq] at h
+    subst h
+    exact ⟨rfl, rfl, rfl⟩
+
+omit [TotalOrd D] [TotalOrd O] in
+/-- A sort that compares only a key is canonical when the key is injective on the collection … -/
+theorem C14_sort_by_injective_key_canonical {κ : Type} [TotalOrd κ] (key : D → κ) {l l' : List D}
+    (hinj : ∀ a, a ∈ l → ∀ b, b ∈ l → key a = key b → a = b) (hp : l.Perm l') :
+    sortByKey key l = sortByKey key l' :=
+  sortByKey_perm_of_injOn key hinj hp
+
+omit [TotalOrd D] [TotalOrd O] in
+/-- … and ONLY then: two different values with the same key (two `--regex-items` dependencies on one
+    file, a dependency before and after a run recorded its state, …) come out in the order they went
+    in, for every key function and every order on the keys. -/
+theorem C14_sort_by_noninjective_key_not_canonical {κ : Type} [TotalOrd κ] (key : D → κ) (a b : D)
+    (hne : a ≠ b) (hk : key a = key b) :
+    [a, b].Perm [b, a] ∧ sortByKey key [a, b] = [a, b] ∧ sortByKey key [b, a] = [b, a] ∧
+    sortByKey key [a, b] ≠ sortByKey key [b, a] := by
+  have h1 := sortByKey_pair_of_key_eq key a b hk
+  have h2 := sortByKey_pair_of_key_eq key b a hk.symm
+  refine ⟨List.Perm.swap b a [], h1, h2, ?_⟩
+  rw [h1, h2]
+  intro h
+  exact hne (List.cons.inj h).1
+
+/-- **Counterexample for ordering by the `Display` string** (what `export.rs` must not do): two
+    `regex-items` dependencies on the same file (`requirements.txt:/^numpy`, `requirements.txt:/^torch`)
+    have the same `Display` string `regex-items(requirements.txt)`; ordered by it, the two iteration
+    orders of the `HStore` give two different exported lists, whereas the derived order gives one. -/
+theorem C14_sort_by_display_counterexample :
+    let a : RegexItems := ⟨0, 1⟩
+    let b : RegexItems := ⟨0, 2⟩
+    a ≠ b ∧ a.display = b.display ∧ [a, b].Perm [b, a] ∧
+    orderVals .byDisplay RegexItems.display [a, b] = [a, b] ∧
+    orderVals .byDisplay RegexItems.display [b, a] = [b, a] ∧
+    orderVals .derivedOrd RegexItems.display [a, b] = [a, b] ∧
+    orderVals .derivedOrd RegexItems.display [b, a] = [a, b] := by
+  intro a b
+  have hs : sortVals [a, b] = [a, b] := sortVals_of_sorted (by decide)
+  refine ⟨by decide, rfl, List.Perm.swap b a [], sortByKey_pair_of_key_eq _ a b rfl,
+    sortByKey_pair_of_key_eq _ b a rfl, hs, ?_⟩
+  show sortVals [b, a] = [a, b]
+  rw [sortVals_perm (List.Perm.swap a b []), hs]
+
 /-! ## Non-vacuity: concrete states satisfying the hypotheses -/
 
 section examples
@@ -361,6 +445,34 @@ example : nameExists exRepo "q" = true ∧ "q" ≠ "p" := by decide
 /-- the overwrite case of `C14_roundtrip` is inhabited as well (`n' = n = "p"`, `ow = true`) -/
 example : (true = true ∨ findPipeline exRepo "p" = none) ∧ nameExists exRepo "p" = true :=
   ⟨Or.inl rfl, by decide⟩
+
+/-- hypotheses of `C14_export_dependency_order_canonical` / `…_output_…`: a non-trivial permutation,
+    and the common value of both sides is the sorted list -/
+example : ([2, 0, 1] : List Nat).Perm [1, 2, 0] ∧
+    orderVals Gen.dependenciesOrder (fun n : Nat => n) [2, 0, 1] = [0, 1, 2] ∧
+    orderVals Gen.outputsOrder (fun n : Nat => n) [1, 2, 0] = [0, 1, 2] := by
+  have hs : sortVals ([0, 1, 2] : List Nat) = [0, 1, 2] := sortVals_of_sorted (by decide)
+  have p1 : ([2, 0, 1] : List Nat).Perm [0, 1, 2] := by decide
+  have p2 : ([1, 2, 0] : List Nat).Perm [0, 1, 2] := by decide
+  refine ⟨p1.trans p2.symm, ?_, ?_⟩
+  · show sortVals [2, 0, 1] = [0, 1, 2]
+    rw [sortVals_perm p1, hs]
+  · show sortVals [1, 2, 0] = [0, 1, 2]
+    rw [sortVals_perm p2, hs]
+
+/-- hypothesis of `C14_export_order_as_modelled`: a step of `exRepo` that is exported, with two
+    dependencies -/
+example : ∃ s, stepSchema? revShuf exRepo (3, "s") = some s ∧ s.dependencies.length = 2 := by
+  refine ⟨_, rfl, ?_⟩
+  simp only [sortVals, List.length_mergeSort, List.length_map]
+  decide
+
+/-- hypotheses of `C14_sort_by_injective_key_canonical` (the identity key) and of
+    `C14_sort_by_noninjective_key_not_canonical` (path and regex as a pair, keyed by the path) -/
+example : (∀ a, a ∈ [3, 1, 2] → ∀ b, b ∈ [3, 1, 2] → (fun n : Nat => n) a = (fun n : Nat => n) b → a = b) ∧
+    ([3, 1, 2] : List Nat).Perm [1, 2, 3] ∧
+    ((0, 1) : Nat × Nat) ≠ (0, 2) ∧ (fun p : Nat × Nat => p.1) (0, 1) = (fun p : Nat × Nat => p.1) (0, 2) :=
+  ⟨fun _ _ _ _ h => h, by decide, by decide, rfl⟩
 
 /-- `UniqueNames` is needed: with two pipelines of one name (reachable only through
     `xvc pipeline update --rename`, which does not check) an `--overwrite` import removes the first and
@@ -658,6 +770,12 @@ end ExportFile
 #print axioms C14_import_preserves
 #print axioms C14_reachable_invariants
 #print axioms C14_roundtrip_needs_unique_names
+#print axioms C14_export_dependency_order_canonical
+#print axioms C14_export_output_order_canonical
+#print axioms C14_export_order_as_modelled
+#print axioms C14_sort_by_injective_key_canonical
+#print axioms C14_sort_by_noninjective_key_not_canonical
+#print axioms C14_sort_by_display_counterexample
 #print axioms Reader.C14_reader_file_verbatim
 #print axioms Reader.C14_reader_file_rejects_iff
 #print axioms Reader.C14_reader_stdin_verbatim
